@@ -76,9 +76,13 @@ pub fn exec(case: &Value) -> Value {
     // the same region requested through pairs of bounds whose START is excluded
     use std::ops::Bound::{Excluded, Included};
     let bsub = Texture::from(atlas.slice(((Excluded(ox - 1), Excluded(ox + w)), (Excluded(oy - 1), Included(oy + h - 1)))));
+    // a COPY of the sub-region view (views are Copy / Clone: the copy shows the same cells)
+    #[allow(clippy::clone_on_copy)]
+    let csub = Texture::from(atlas.slice((ox..ox + w, oy..oy + h)).clone());
     for rel in [false, true] {
         let (cu, cv) = if rel { (u / w as f32, v / h as f32) } else { (u, v) };
         sample_all(&mut out, &key, &bsub, w, h, 3, cu, cv, rel);
+        sample_all(&mut out, &key, &csub, w, h, 4, cu, cv, rel);
         sample_all(&mut out, &key, &owned, w, h, 0, cu, cv, rel);
         sample_all(&mut out, &key, &sub, w, h, 1, cu, cv, rel);
         sample_all(&mut out, &key, &nested, w, h, 2, cu, cv, rel);
